@@ -379,6 +379,12 @@ def handle (c obs : String) : String × Bool × String :=
   | ["lazy", mode, src] => handleLazy mode src obs
   | "file" :: ts => handleFile ts obs
   | ["raw", dir, hex] => handleRaw dir hex obs
+  | ["latefile", _] =>
+    -- spec-only (harness/run/c20.go `c20execLateFile`): the first materialisation (file missing) is empty without an
+    -- error, the later ones do not fail, and no handle on the file stays open
+    let ok := obs.startsWith "first=0/false later-errors=false/false " && obs.endsWith " fds=0"
+    (if ok then obs else "first=0/false later-errors=false/false fds=0", ok,
+     if ok then "" else "a file opened by a materialisation is still open after it returned (or a materialisation failed)")
   | ["missing", _] =>
     let want := fmtLines true []
     (want, obs == want, if obs == want then "" else s!"want {want}")
